@@ -90,8 +90,10 @@ func (c *CredentialsStore) Load(r io.Reader) error {
 		return err
 	}
 
-	var cred Credential
 	for dec.More() {
+		// A fresh Credential for every entry, so that an entry which omits a
+		// field does not inherit the value of the previous entry.
+		var cred Credential
 		err := dec.Decode(&cred)
 		if err != nil {
 			return err
